@@ -80,8 +80,10 @@ Case vf_generate() {
   bool numeric = c.kind != 3 && c.kind != 5 && c.kind != 8;
   if (c.kind == 4 || c.kind == 9) {
     int no = vf::pick<int>(1, 5);
-    static const char *SY[] = {"sine", "saw", "square", "tri", "noise"};
-    for (int i = 0; i < no; i++) c.opts.push_back(SY[i]);
+    // symbol sets in which an earlier symbol is a prefix of a later one are included on purpose
+    static const char *SY[3][5] = {{"sine", "saw", "square", "tri", "noise"}, {"ch1", "ch10", "ch11", "ch2", "ch"}, {"on", "once", "one", "off", "o"}};
+    int set = vf::pickn(3);
+    for (int i = 0; i < no; i++) c.opts.push_back(SY[set][i]);
   }
   if (numeric) {
     int lo, hi;
